@@ -16,6 +16,9 @@ CLOCK = vt.CLOCK
 CMD_T, DATA_T, CONN_T = 10, 25, 5
 
 
+STAGE_NO = {'banner': 1, 'ehlo': 2, 'helo': 3, 'mail': 4, 'rcpt': 5, 'data': 6, 'eod': 7, 'rset': 8, 'quit': 9}
+
+
 class Down(object):
     """scripted SMTP/LMTP server, client-side socket object.  script: dict stage -> action, stages:
     banner, ehlo, helo, mail, rcpt (list per recipient), data, eod (list for LMTP), rset, quit.
@@ -77,6 +80,8 @@ class Down(object):
             self.ev.set()
             return 'malformed'
         text = 'r%d %s' % (a, stage) + (' m%d' % self.marker if stage in ('mail', 'rcpt', 'data', 'eod') and self.marker else '')
+        if a >= 400:          # identity of this failure reply (queue scenarios group bounces by it)
+            text += ' rid%d' % (a * 10 + STAGE_NO.get(stage, 0))
         if stage in ('ehlo',) and a == 250:
             lines = ['downstream'] + (['PIPELINING'] if self.pipelining else []) + ['8BITMIME', 'SMTPUTF8']
             self.out += ''.join('250%s%s\r\n' % ('-' if k < len(lines) - 1 else ' ', ln) for k, ln in enumerate(lines)).encode()
